@@ -61,6 +61,19 @@ pub fn check_payload<D: Clone + Debug, E: Debug>(g: &GraphV<D>, expect: &dyn Fn(
 
 /// C02: the node partition equals the maximal-unbranched-path components of the reference.
 pub fn check_maximal<D: Clone>(g: &GraphV<D>, t: &Table, join: &dyn Fn(&S, &S) -> bool) -> R {
+    // a node must be a SET of k-mers: a repeated k-mer means the node runs through a link that joins
+    // a k-mer with itself (ring closed on its own seed, self loop, hairpin re-traversal)
+    for i in 0..g.nodes.len() {
+        let ks = g.kmers(i);
+        let set: BTreeSet<&S> = ks.iter().collect();
+        if set.len() != ks.len() {
+            bail!("node-repeats-kmer", "node {} = {} contains a k-mer more than once", i, node_str(g, i));
+        }
+    }
+    let total: usize = (0..g.nodes.len()).map(|i| g.nodes[i].seq.len() + 1 - g.k).sum();
+    if total != t.e.len() {
+        bail!("node-kmer-count", "nodes hold {} k-mers in total, the table has {}", total, t.e.len());
+    }
     let want = t.unitigs(join);
     let got = g.partition();
     if got != want {
